@@ -25,7 +25,17 @@ type mnode struct {
 	Gate     godi.ModuleOption // gate leaf: an entry written by the harness that registers nothing
 	Reg      int               // index into the registration list (add)
 	T        int               // type id (remove*)
+	KeyKind  int               // removeKeyed: which key value (see rmKeys)
 }
+
+// rmKey is a defined string type: a key of this type is not the name "a" that
+// godi.Name("a") registers, although it prints the same.
+type rmKey string
+
+// rmKeys are the key values RemoveKeyed entries are issued with - through a
+// module and directly, the very same value.
+var rmKeys = []any{"a", "a", "b", rmKey("a"), "", 7}
+
 
 func (n *mnode) String() string {
 	switch n.Leaf {
@@ -34,7 +44,7 @@ func (n *mnode) String() string {
 	case "remove":
 		return "remove(" + kit.TypeName(n.T) + ")"
 	case "removeKeyed":
-		return "removeKeyed(" + kit.TypeName(n.T) + ",a)"
+		return fmt.Sprintf("removeKeyed(%s,%#v)", kit.TypeName(n.T), rmKeys[n.KeyKind])
 	case "nil":
 		return "nil"
 	case "addnil":
@@ -49,24 +59,24 @@ func (n *mnode) String() string {
 	return n.Name + "{" + strings.Join(parts, " ") + "}"
 }
 
-func removeOption(t int, keyed bool) godi.ModuleOption {
+func removeOption(t int, keyed bool, key any) godi.ModuleOption {
 	type rm struct{ plain, keyed godi.ModuleOption }
 	var o rm
 	switch t {
 	case 0:
-		o = rm{godi.Remove[*kit.D0](), godi.RemoveKeyed[*kit.D0]("a")}
+		o = rm{godi.Remove[*kit.D0](), godi.RemoveKeyed[*kit.D0](key)}
 	case 1:
-		o = rm{godi.Remove[*kit.D1](), godi.RemoveKeyed[*kit.D1]("a")}
+		o = rm{godi.Remove[*kit.D1](), godi.RemoveKeyed[*kit.D1](key)}
 	case kit.NumD:
-		o = rm{godi.Remove[*kit.N0](), godi.RemoveKeyed[*kit.N0]("a")}
+		o = rm{godi.Remove[*kit.N0](), godi.RemoveKeyed[*kit.N0](key)}
 	case kit.NumD + 1:
-		o = rm{godi.Remove[*kit.N1](), godi.RemoveKeyed[*kit.N1]("a")}
+		o = rm{godi.Remove[*kit.N1](), godi.RemoveKeyed[*kit.N1](key)}
 	case kit.TI0:
-		o = rm{godi.Remove[kit.I0](), godi.RemoveKeyed[kit.I0]("a")}
+		o = rm{godi.Remove[kit.I0](), godi.RemoveKeyed[kit.I0](key)}
 	case kit.TI1:
-		o = rm{godi.Remove[kit.I1](), godi.RemoveKeyed[kit.I1]("a")}
+		o = rm{godi.Remove[kit.I1](), godi.RemoveKeyed[kit.I1](key)}
 	default:
-		o = rm{godi.Remove[kit.I2](), godi.RemoveKeyed[kit.I2]("a")}
+		o = rm{godi.Remove[kit.I2](), godi.RemoveKeyed[kit.I2](key)}
 	}
 	if keyed {
 		return o.keyed
@@ -88,7 +98,7 @@ func genTree(rt *rapid.T, depth int, regs *[]kit.Reg) *mnode {
 		case c == 2:
 			n.Children = append(n.Children, &mnode{Leaf: "nil"})
 		case c == 3:
-			n.Children = append(n.Children, &mnode{Leaf: rapid.SampledFrom([]string{"remove", "removeKeyed"}).Draw(rt, "rmkind"), T: rapid.SampledFrom(c17Types).Draw(rt, "rmT")})
+			n.Children = append(n.Children, &mnode{Leaf: rapid.SampledFrom([]string{"remove", "removeKeyed"}).Draw(rt, "rmkind"), T: rapid.SampledFrom(c17Types).Draw(rt, "rmT"), KeyKind: rapid.IntRange(0, len(rmKeys)-1).Draw(rt, "rmKey")})
 		default:
 			reg := kit.GenLooseReg(rt, len(*regs), true)
 			*regs = append(*regs, reg)
@@ -103,9 +113,9 @@ func (n *mnode) option(w *kit.World) godi.ModuleOption {
 	case "add":
 		return w.ModuleOption(&w.Cfg.Regs[n.Reg])
 	case "remove":
-		return removeOption(n.T, false)
+		return removeOption(n.T, false, nil)
 	case "removeKeyed":
-		return removeOption(n.T, true)
+		return removeOption(n.T, true, rmKeys[n.KeyKind])
 	case "nil":
 		return nil
 	case "addnil":
@@ -229,7 +239,7 @@ func TestC20Modules(t *testing.T) {
 				cb.Remove(kit.RType(lf.N.T))
 				refB.remove(kit.Ident{T: lf.N.T})
 			case "removeKeyed":
-				cb.RemoveKeyed(kit.RType(lf.N.T), "a")
+				cb.RemoveKeyed(kit.RType(lf.N.T), rmKeys[lf.N.KeyKind])
 				refB.remove(kit.Ident{T: lf.N.T, Key: "a"})
 			}
 			if errB != nil {
